@@ -66,6 +66,7 @@ SpecialFields(name) ==
     [] name = "rsdpv2" -> <<"signature", "oem_id", "checksum_is_valid">>
     [] OTHER -> <<>>
 AllFields(name) == [i \in 1..Len(FieldsOf(InfoKind(name))) |-> FieldsOf(InfoKind(name))[i].n] \o SpecialFields(name)
+                   \o <<"as_bytes", "trait_payload", "as_ptr">>
 FieldCalls(name) == [i \in 1..Len(AllFields(name)) |-> [op |-> "field", kind |-> name, f |-> AllFields(name)[i]]]
 StrCalls(name) == IF name \in {"cmdline", "bootloader", "module"} THEN <<[op |-> "str", kind |-> name]>> ELSE <<>>
 AreaCalls(name) ==
